@@ -89,8 +89,8 @@ def harnesses(tier):
         'cycles-n3-ms-nameless': dict(P_, n=3, milestones=True, nameless=True, scenarios=[(0, -1), (5, 1)]),
         'outside-pred-n3': dict(P_, n=3, outside=True, milestones=True, E=6, scenarios=[(0, -1)]),
         'future-end-n3': dict(P_, n=3, future_end=True, E=6, scenarios=[(0, 0), (0, 2)]),
-        'never-available-n3': dict(P_, n=3, resources=['r', 'q'], calendars=['zero', 'until_fri', 'direct', 'from_wed', 'default'],
-                                   E=40, links=False, hierarchy=False, scenarios=[(0, -1), (9, 0)]),
+        'never-available-n2': dict(P_, n=2, resources=['r', 'q'], calendars=['zero', 'until_fri', 'from_wed', 'default'],
+                                   E=24, links=False, hierarchy=False, scenarios=[(0, -1), (9, 0)]),
     }
     out = []
     for k, v in T.items():
